@@ -50,7 +50,7 @@ def harvest(nshards: int, per: int, seed: int) -> list[list[str]]:
 
 
 def obligations(tier: str, seed: int):
-    t = 200 if tier == "quick" else 1200
+    t = 200 if tier == "quick" else 600
     units = [
         ("funnel", "Parser.raise_error* ; check_errors", "level in 4, n in 0..4 errors, max_errors in 0..6"),
         ("try", "Parser._try_parse", "level in 4, start index 0..2, retreat, 5 behaviours of the speculative branch (incl. nested speculation)"),
@@ -60,7 +60,7 @@ def obligations(tier: str, seed: int):
          "input index (enumerated corpus), max_errors 1..4; the four runs are related inside one path"),
     ]
     obls = []
-    shards = harvest(6 if tier == "quick" else 16, 8 if tier == "quick" else 12, seed)
+    shards = harvest(6 if tier == "quick" else 12, 8 if tier == "quick" else 10, seed)
     for i, shard in enumerate(shards):
         obls.append(Obl(key=f"parse-harvest-{i}", harness="h_errlevel.py", params={"corpus": shard}, func="prop_parse", twin="twin_parse",
                         cond_timeout=t * 2, path_timeout=30,
